@@ -24,10 +24,29 @@ def unjson(x):
     return x
 
 
-def build_native(t, val):
+_CTX = {"tmp": None, "cex": {}, "n": 0}
+
+
+def _native_path(name):
+    """Ghost file system -> a real temporary file (the model's path string itself is irrelevant)."""
+    _CTX["n"] += 1
+    path = os.path.join(_CTX["tmp"], f"f{_CTX['n']}_" + "".join(ch if ch.isalnum() else "_" for ch in name)[-40:])
+    st = _CTX["cex"].get(f"__fs__{name}")
+    if st and st[0]:
+        content = st[1] if isinstance(st[1], bytes) else bytes(st[1].get("__bytes_len__", 0)) if isinstance(st[1], dict) else b""
+        if isinstance(st[2], str) and st[2] and not content:
+            content = st[2].encode()
+        with open(path, "wb") as fh:
+            fh.write(content)
+    return path
+
+
+def build_native(t, val, name=""):
     """Native Python value for a contract type from a projected model value (already un-JSON-ed)."""
     if isinstance(t, type) and issubclass(t, T):
         t = t()
+    if isinstance(t, PathStr):
+        return _native_path(name)
     if isinstance(t, (Int, Bool, Str, Bytes)):
         if isinstance(val, dict) and "__bytes_len__" in val:
             return bytes(val["__bytes_len__"])
@@ -37,7 +56,7 @@ def build_native(t, val):
     if isinstance(t, Const):
         return t.value
     if isinstance(t, Opt):
-        return None if val is None else build_native(t.t, val)
+        return None if val is None else build_native(t.t, val, name)
     if isinstance(t, OneOf):
         for a in t.alts:
             if not isinstance(a, T) and not isinstance(a, type) and a == val and type(a) is type(val):
@@ -45,14 +64,14 @@ def build_native(t, val):
         for a in t.alts:
             if isinstance(a, T) or isinstance(a, type):
                 try:
-                    return build_native(a, val)
+                    return build_native(a, val, name)
                 except Exception:
                     continue
         return val
     if isinstance(t, ListT):
-        return [build_native(e, v) for e, v in zip(t.elems, val)]
+        return [build_native(e, v, f"{name}[{i}]") for i, (e, v) in enumerate(zip(t.elems, val))]
     if isinstance(t, TupleT):
-        return tuple(build_native(e, v) for e, v in zip(t.elems, val))
+        return tuple(build_native(e, v, f"{name}[{i}]") for i, (e, v) in enumerate(zip(t.elems, val)))
     if isinstance(t, SeqStr):
         return list(val)
     if isinstance(t, DictT):
@@ -60,10 +79,10 @@ def build_native(t, val):
         for k, vt in list(t.required.items()) + list(t.optional.items()):
             ks = k if k in val else str(k)
             if ks in val:
-                out[k] = build_native(vt, val[ks])
+                out[k] = build_native(vt, val[ks], f"{name}[{k!r}]")
         return out
     if isinstance(t, Obj):
-        attrs = {k: build_native(at, val.get(k)) for k, at in t.attrs.items()}
+        attrs = {k: build_native(at, val.get(k), f"{name}.{k}") for k, at in t.attrs.items()}
         return native.build_obj(t.relpath, t.cls, attrs)
     if isinstance(t, Lib) and t.kind == "Path":
         import pathlib
@@ -103,19 +122,10 @@ def replay_counterexample(c, cex_json, module=None, timeout_s=60):
                 return {"status": "cannot-build", "failures": [], "note": "adapter declined"}
             inputs, call, extra_ns = prepared
         else:
+            _CTX.update(tmp=tmp, cex=cex, n=0)
             inputs = {}
             for name, t in list(c.params) + list(c.ghosts):
-                if isinstance(t, PathStr):
-                    # ghost file system -> real temporary files (the model's path string itself is irrelevant)
-                    path = os.path.join(tmp, name)
-                    st = cex.get(f"__fs__{name}")
-                    if st and st[0]:
-                        content = st[1] if isinstance(st[1], bytes) else bytes(st[1].get("__bytes_len__", 0)) if isinstance(st[1], dict) else b""
-                        with open(path, "wb") as fh:
-                            fh.write(content)
-                    inputs[name] = path
-                else:
-                    inputs[name] = build_native(t, cex.get(name))
+                inputs[name] = build_native(t, cex.get(name), name)
             call, extra_ns = None, None
         nr = native.run_case(c, inputs, call=call, extra_ns=extra_ns)
         if nr.skipped:
